@@ -38,6 +38,9 @@ Definition same_go_type (a b : err) : bool :=
 Definition go_eq (c r : err) : bool :=
   match c, r with
   | Leaf _ LDeadline, Leaf _ LDeadline => true
+  (* *errorspb.TestError points to a zero-size struct: the Go runtime gives all
+     such allocations the same address, so any two of them are == *)
+  | Leaf _ LTestError, Leaf _ LTestError => true
   | Leaf _ (LErrno a), Leaf _ (LErrno b) => Z.eqb a b
   | Leaf _ (LUser ULVal m t _), Leaf _ (LUser ULVal m' t' _) => str_eqb m m' && Z.eqb t t'
   | Leaf _ LDeadline, _ | _, Leaf _ LDeadline => false
